@@ -21,6 +21,7 @@ import (
 	"time"
 
 	"github.com/attestantio/dirk/rules"
+	"github.com/attestantio/dirk/util/verifhook"
 	e2types "github.com/wealdtech/go-eth2-types/v2"
 )
 
@@ -194,6 +195,9 @@ func (s *Service) storeSignBeaconAttestationStates(ctx context.Context, pubKeys 
 
 	err := s.store.BatchStore(ctx, keys, values)
 	if err != nil {
+		return err
+	}
+	if err := verifhook.Point("batchstore.exit", keys[0]); err != nil {
 		return err
 	}
 
